@@ -118,7 +118,8 @@ Section OneUpdate.
     end.
 
   Definition prop_pom (j : nat) (q : pom) : pom :=
-    if Nat.eqb j i then {| pm_path := pm_path q; pm_decls := pm_decls q; pm_props := map upd_prop (pm_props q) |} else q.
+    if Nat.eqb j i then {| pm_path := pm_path q; pm_decls := pm_decls q; pm_props := map upd_prop (pm_props q);
+                           pm_empty_mgmt := pm_empty_mgmt q |} else q.
 
   Definition prop_chain : chain := map (fun jq => prop_pom (fst jq) (snd jq)) (indexed O c).
 
@@ -149,6 +150,12 @@ Section OneUpdate.
   Proof.
     intros Hjq. unfold write_pom.
     rewrite (all_some_map _ (fun d => d)) by (intros; apply write_decl_prop). rewrite map_id.
+    assert (Ea : added_pairs (map mk asg) = []).
+    { unfold added_pairs. rewrite flat_map_nil; [reflexivity|]. intros x Hx. apply in_map_iff in Hx as (nv & <- & _). reflexivity. }
+    rewrite Ea. simpl map. rewrite insert_added_nil.
+    assert (Ed : match j with O => if pm_empty_mgmt q then pm_decls q else pm_decls q | S _ => pm_decls q end = pm_decls q)
+      by (destruct j; [destruct (pm_empty_mgmt q)|]; reflexivity).
+    rewrite Ed.
     unfold prop_pom. destruct (Nat.eqb j i) eqn:E.
     - apply Nat.eqb_eq in E. subst j. pose proof (indexed_fun _ _ _ _ _ Hjq (tf_pom _ _ _ _ TF)) as ->.
       f_equal. f_equal. apply map_ext. intros f. unfold write_prop, upd_prop. rewrite preset_mk. fold path.
@@ -375,9 +382,8 @@ End OneUpdate.
 Lemma pom_decl_property_update_exact_lemma c u :
   d_prop c u = true -> exists c', write_chain c [u] = Some c' /\ decl_spec_ok c [u] c' = true.
 Proof.
-  unfold d_prop. intros H. apply andb_true_iff in H as [HF HP].
-  unfold d_full in HF. apply andb_true_iff in HF as [HF HU]. apply andb_true_iff in HF as [HW _].
-  cbn [forallb] in HU. rewrite andb_true_r in HU.
+  unfold d_prop. intros H. apply andb_true_iff in H as [HF HP]. apply andb_true_iff in HF as [HW HU].
+  unfold d_upd in HU.
   apply andb_true_iff in HU as [HU HM]. apply andb_true_iff in HU as [HU HTo]. apply andb_true_iff in HU as [HA HC].
   destruct (target_exists c u HA HC) as (p0 & d0 & TF).
   rewrite (original_dependency_target c u p0 d0 TF) in HM, HP.
